@@ -30,6 +30,42 @@ CHECKS = {
         text="ord(T) = 2^n - 1 for the matrix extracted from the implementation is equivalent to the non-zero states forming one cycle of length 2^n - 1; it is decided for all 15 linear types (7 distinct engines) and the matrix is bound to the code by exhaustive low-weight replay. A singular or non-linear step is turned into a concrete colliding pair of states on the real code.",
         note="primality of the factors of 2^512-1 (Miller-Rabin 40 bases + product check each run); linearity beyond replayed weights",
         ref="4/C07"),
+    "C02": dict(
+        engine="E2", cat="model_checking",
+        technique="exhaustive enumeration of structured seed alphabets (every 1-, 2- and 3-bit key/IV pattern, walking zeros, byte probes, dense chains) against a specification-level HC-128 model, over >2 table cycles and through both entry points",
+        text="Every seed of Z/O/W1/W2/W3/WZ/BYTE and dense chained seeds is compared word by word with an independent transcription of Wu's specification (P/Q tables, one word per step) for 2200 words via Hc128Rng::next_u32 and 8 blocks via Hc128Core::generate; a subset runs 2^16..2^20 words; all 1024 (phase, j) step indices are confirmed exercised.",
+        note="specification model validated against the paper's vectors each run; seeds outside the alphabet are not enumerated (the key/IV enter only through 16 copied words, every bit of which is toggled alone, in pairs and in triples)",
+        ref="4/C02"),
+    "C03": dict(
+        engine="E2", cat="model_checking",
+        technique="exhaustive enumeration of structured seed alphabets (1-, 2-, 3-bit patterns, byte probes, dense chains) against readable.c-style ISAAC / ISAAC-64 models over 3..4000 blocks; seed_from_u64(0) against the unseeded reference",
+        text="Both generators are compared word by word with independent models of Jenkins' reference code for every seed of the alphabets over all 768 words of the first three blocks, for hundreds of blocks on a subset, and for the unseeded reference; all 256 values of both indirection indices are confirmed exercised.",
+        note="models validated against reference vectors each run; seeds outside the alphabet not enumerated",
+        ref="4/C03"),
+    "C05": dict(
+        engine="E1", cat="model_checking",
+        technique="explicit-state BFS over all next_u32/next_u64/fill_bytes(n) histories up to a depth on the real code in product with a bookkeeping model, merged on (words consumed, half pending) after a state-equality check, from every buffer offset",
+        text="All interleavings up to depth 4 (quick) / 6 (thorough) of the three output calls over 18-20 lengths are executed on the real generators from every start offset of a block; each returned value must be the stated projection of the words an identically seeded native-width twin returns, and the block+2 following words must continue the twin's stream.",
+        note="word values come from the implementation twin (relational oracle); projections transcribed from the property; depth bound; JitterRng with scripted non-stuck timers only",
+        ref="4/C05"),
+    "C10": dict(
+        engine="E1", cat="model_checking",
+        technique="exhaustive enumeration of history states (depth 2-3, all start offsets, 3+k seeds); every state cloned and every pair of states compared with ==, equal pairs run under all continuations of depth 2",
+        text="For 20 generator types and the three public cores, every reachable state of the bounded history space is cloned and the clone compared with a replayed original under all continuations; every pair of states (millions) is compared with == and equal pairs must have identical futures; IsaacArray equality is probed slot by slot.",
+        note="bounded history depth and continuation depth; states rebuilt by replay (no reliance on Clone)",
+        ref="4/C10"),
+    "C11": dict(
+        engine="E1", cat="model_checking",
+        technique="snapshot (bincode) taken in every state of the bounded history space, at every point of a 600/1400-step history (crash-point sweep over every buffer index and half-word flag) and in the initial state of every alphabet seed; restored generator compared with a never-serialised replay",
+        text="For the 18 serialisable types a snapshot is taken at every enumerated point; the restored generator must compare equal (where == exists) and return the same values under all continuations of depth 2 / for the next 300-600 words, and serialising must not disturb the original.",
+        note="bincode 1.3.3 as format; bounded depth",
+        ref="4/C11"),
+    "C17": dict(
+        engine="E1", cat="model_checking",
+        technique="exhaustive enumeration of histories (depth 3-4, all start offsets) x 5 seeds: Debug texts compared pairwise across seeds and scanned for every state/buffer/output word taken from the implementation",
+        text="{:?} and {:#?} of the eight state-hiding types are byte-identical across seeds for every enumerated history and contain none of the words of the state image, the seed, the pool or the next two blocks of output; JitterRng gives one single text over all histories, timers and pool values.",
+        note="bounded depth; secret words >= 2^16 only (smaller values collide with the public index)",
+        ref="4/C17"),
 }
 
 PLAN_REASON = "check not built yet (work in progress; DESIGN.md section 4 has the plan)"
